@@ -10,6 +10,8 @@ INVARIANT InstrRoundTrip
 INVARIANT InstrPrintStable
 INVARIANT ParseNormalIsFixpoint
 INVARIANT Placeholders
+INVARIANT PlaceholdersProgram
+INVARIANT ProgramOfValues
 INVARIANT NoAmbiguousDelay
 INVARIANT ProgramLevel
 INVARIANT ListingFixpoint
